@@ -60,11 +60,12 @@ type kept struct {
 }
 
 type sys struct {
-	w     *vt.Writer
-	cp    *collector.CollectingProcess
-	conns map[int]*conn
-	real  bool
-	kept  []kept // delivered messages, re-projected at the end of the run
+	shared bool // all connections use observation domain 1; connection c numbers its messages from 1000*(c-1)
+	w      *vt.Writer
+	cp     *collector.CollectingProcess
+	conns  map[int]*conn
+	real   bool
+	kept   []kept // delivered messages, re-projected at the end of the run
 }
 
 func projString(m *entities.Message) string {
@@ -85,9 +86,13 @@ func (s *sys) recheck() {
 }
 
 func (s *sys) logDeliver(m *entities.Message) {
-	s.kept = append(s.kept, kept{m: m, c: int(m.GetObsDomainID()), proj: projString(m)})
+	cid := int(m.GetObsDomainID())
+	if s.shared {
+		cid = 1 + int(m.GetSequenceNum())/1000
+	}
+	s.kept = append(s.kept, kept{m: m, c: cid, proj: projString(m)})
 	ev := vt.Ev{"e": "Deliver", "dom": vt.Limbs(m.GetObsDomainID()), "seq": vt.Limbs(m.GetSequenceNum())}
-	ev["c"] = int(m.GetObsDomainID())
+	ev["c"] = cid
 	if m.GetSet().GetSetType() == entities.Template {
 		tid, fields := coll.ProjectTemplate(m)
 		ev["kind"], ev["tid"], ev["fields"] = "Tmpl", tid, fields
@@ -411,6 +416,69 @@ func main() {
 		m := absv.Message(1, 0, 1, 2, absv.TemplateBody(256, []absv.Spec{sU8}))
 		m[2], m[3] = 0, byte(l)
 		runCuts(m, []int{2}, "tiny")
+	}
+	// messages longer than the reader's buffer (4096 bytes): whole, in 1000-byte pieces, and cut at the buffer size
+	for _, n := range []int{4060, 4096 - 16 - 4 - 9, 4200, 20000, 65535 - 16 - 4 - 9} {
+		ms := stream(1, 1, -1, 0, rand.New(rand.NewSource(12)))
+		str := make([]byte, n)
+		for j := range str {
+			str[j] = byte(65 + j%26)
+		}
+		body := append([]byte{7}, absv.VarPrefix(n)...)
+		body = append(body, str...)
+		body = append(body, 1, 2, 1, 9)
+		ms = append(ms, absv.Message(2, 2, 1, 256, body))
+		ms = append(ms, stream(1, 1, -1, 0, rand.New(rand.NewSource(13)))[1])
+		b := concat(ms)
+		runCuts(b, []int{len(ms[0]) + len(ms[1])}, "long")
+		cuts := []int{}
+		for x := 1000; x < len(b); x += 1000 {
+			cuts = append(cuts, x)
+		}
+		runCuts(b, cuts, "long1000")
+		runCuts(b, []int{len(ms[0]) + len(ms[1]) + 4096}, "long4096")
+	}
+	// two connections exporting for the SAME observation domain: an undecodable message closes one of them,
+	// the other one (and the template both use) is unaffected
+	for _, fl := range []int{0, 1, 2, 3} {
+		evals++
+		s := newPipeSys(w, "shared", 2)
+		s.shared = true
+		a, b := s.conns[1], s.conns[2]
+		mk := func(c int, ms [][]byte) [][]byte { // re-stamp: domain 1, sequence numbers from 1000*(c-1)
+			out := make([][]byte, len(ms))
+			for i, m := range ms {
+				m = append([]byte{}, m...)
+				sq := uint32(1000*(c-1) + i)
+				m[8], m[9], m[10], m[11] = byte(sq>>24), byte(sq>>16), byte(sq>>8), byte(sq)
+				m[12], m[13], m[14], m[15] = 0, 0, 0, 1
+				out[i] = m
+			}
+			return out
+		}
+		ma := mk(1, stream(1, 3, -1, 0, rand.New(rand.NewSource(21))))
+		mb := mk(2, stream(1, 3, 2, fl, rand.New(rand.NewSource(21)))) // same template; its third message is undecodable
+		s.write(b, mb[0])
+		s.write(b, mb[1])
+		s.write(a, ma[0])
+		s.write(a, ma[1])
+		s.write(b, mb[2]) // closes b
+		s.pump(nil, 20*time.Millisecond)
+		if !a.ended {
+			s.write(a, ma[2])
+		}
+		if !a.ended {
+			s.write(a, ma[3])
+		}
+		if !a.ended {
+			s.closeClient(a)
+		}
+		if !b.ended {
+			s.closeClient(b)
+		}
+		s.waitEnd()
+		a.client.Close()
+		b.client.Close()
 	}
 	// (B) real loopback sockets: several connections, random multi-cuts, small delays, long streams
 	nB := 12
